@@ -7,7 +7,7 @@ from shapely.geometry import MultiPoint, Polygon
 from ..common import Failed, quiet_warnings
 from ..geomgen import model_polygons
 from ..model import CONVENTIONS, make
-from ..model.ugrid import make_ugrid
+from ..model.ugrid import is_convex, make_ugrid
 from ..oracles import freefaces as ff
 from ..rng import chance, pick
 
@@ -50,11 +50,11 @@ META = {
 def run(ctx):
     obs = ctx.obs
     obs.extra['meta'] = META
-    for case, rng in ctx.cases(ctx.n(160, 3200), stream='datasets'):
+    for case, rng in ctx.cases(ctx.n(200, 8000), stream='datasets'):
         conv = CONVENTIONS[case % len(CONVENTIONS)]
         spec = {'case': case, 'stream': 'datasets', 'convention': conv}
         ctx.run_case(spec, dataset_case, obs, rng, conv, spec)
-    for case, rng in ctx.cases(ctx.n(110, 4200), stream='faces'):
+    for case, rng in ctx.cases(ctx.n(140, 12000), stream='faces'):
         spec = {'case': case, 'stream': 'faces'}
         ctx.run_case(spec, faces_case, obs, rng, spec)
 
@@ -115,10 +115,24 @@ def faces_case(obs, rng, spec):
 # the monitor
 # ---------------------------------------------------------------------------
 
-def exception_mech(family):
+def open_ring(ring):
+    ring = list(ring)
+    if len(ring) > 1 and ring[0] == ring[-1]:
+        ring = ring[:-1]
+    return ring
+
+
+def repeated_vertex_cells(model, mpolys):
+    """Cells whose ring names the same point twice (collapsed synthesised corners of a CF grid without bounds)."""
+    return [n for n, ring in enumerate(model.cells)
+            if ring is not None and mpolys[n] is not None and n not in model.skip_cells and len(set(open_ring(ring))) < len(open_ring(ring))]
+
+
+def exception_mech(family, repeated):
     def mech(exc):
         if 'Could not find interior diagonal' in str(exc):
-            return 'no-interior-diagonal:' + family
+            # mechanism predicate: the dataset holds a cell whose ring repeats a vertex (the ear clipper has no ear to find)
+            return 'no-interior-diagonal:repeated-vertex-cell' if repeated else 'no-interior-diagonal:' + family
         return 'triangulate-raised:' + family
     return mech
 
@@ -148,13 +162,20 @@ def check_triangulation(obs, model, ds, mpolys, spec, *, exact, family, info=Non
         ems = obs.call('dataset.ems', lambda: ds.ems)
         if isinstance(ems, Failed):
             return
-        result = obs.call('triangulate_dataset', triangulate_dataset, ds, mech=exception_mech(family))
+        repeated = set(repeated_vertex_cells(model, mpolys))
+        if repeated:
+            obs.cls('dataset-with-repeated-vertex-cell')
+        result = obs.call('triangulate_dataset', triangulate_dataset, ds, mech=exception_mech(family, repeated))
     if isinstance(result, Failed):
         return
     if not obs.expect(isinstance(result, tuple) and len(result) == 3, 'triangulate_dataset returns (vertices, triangles, cell_indices)',
                       lambda: {'type': type(result).__name__}, mech='result-shape'):
         return
     vertices, triangles, cell_index = (numpy.asarray(a) for a in result)
+    if vertices.size == 0 and all(p is None for p in mpolys):
+        # a dataset without any geometry: an empty vertex list is an empty vertex list, whatever its array shape
+        obs.cls('dataset-without-any-geometry')
+        vertices = vertices.reshape((0, 2))
     ok = obs.expect(vertices.ndim == 2 and vertices.shape[1] == 2 and triangles.ndim == 2 and triangles.shape[1] == 3
                     and cell_index.ndim == 1 and len(cell_index) == len(triangles),
                     'vertices (V, 2), triangles (T, 3), cell indexes (T,)',
@@ -191,7 +212,6 @@ def check_triangulation(obs, model, ds, mpolys, spec, *, exact, family, info=Non
         by_cell.setdefault(int(c), []).append(t)
     tol = 1e-9 if model.derived_geometry else 0.0
     tri_rows = triangles.tolist()
-    sampled = False
     for n in range(size):
         tris = by_cell.get(n, [])
         if n in model.skip_cells:
@@ -204,29 +224,38 @@ def check_triangulation(obs, model, ds, mpolys, spec, *, exact, family, info=Non
             obs.expect(not tris, 'a cell without geometry produces no triangles',
                        lambda: {'n': n, 'native': model.native(model.default_kind, n), 'triangles': [tri_rows[t] for t in tris]}, mech='triangle-on-hole')
             continue
-        ring = list(model.cells[n])
-        if len(ring) > 1 and ring[0] == ring[-1]:
-            ring = ring[:-1]
+        ring = open_ring(model.cells[n])
+        if n in repeated:
+            # is a ring that names one point twice 3- or 4-sided?  the statement does not say: nothing asserted on this cell
+            obs.cls('repeated-vertex-cell-not-asserted')
+            continue
         obs.evaluation()
         inf = info[n] if info is not None else None
-        good = check_cell(obs, n, ring, mp, [[rows[v] for v in tri_rows[t]] for t in tris], tol, exact, family, inf, model)
-        if info is None:
-            from ..model.ugrid import is_convex
-            obs.cls('sides:%d' % len(ring))
-            if not is_convex(ring):
-                obs.cls('cell:concave-in-generated-mesh')
-        else:
-            obs.cls('sides:%d' % len(ring))
-        if good and not sampled and len(obs.samples) < 4:
-            want = ((inf is not None and (inf['concave'] or inf['collinear']) and len(obs.samples) < 3)
-                    or (inf is None and len(obs.samples) >= 2 and any(p is None for p in mpolys)))
-            if want:
-                sampled = True
-                obs.sample({'family': family, 'cell': n, 'shape': inf['label'] if inf else model.convention,
+        tri_xy = [[rows[v] for v in tri_rows[t]] for t in tris]
+        good, tri_pos = check_cell(obs, n, ring, mp, tri_xy, tol, exact, family, inf, model)
+        obs.cls('sides:%d' % len(ring))
+        if info is None and not is_convex(ring):
+            obs.cls('cell:concave-in-generated-mesh')
+        # evidence samples: one per category and shard
+        if good and len(ring) >= 4:
+            if inf is None:
+                category = 'dataset-with-holes' if any(p is None for p in mpolys) and not is_convex(ring) else \
+                    ('dataset-with-holes' if any(p is None for p in mpolys) and model.convention != 'ugrid' and n > 0 and mpolys[n - 1] is None else None)
+            elif family == 'rotated-faces':
+                category = 'rotated' if inf['lattice_collinear'] else None
+            elif inf['collinear']:
+                category = 'collinear'
+            else:
+                category = 'concave' if inf['concave'] and len(ring) >= 6 else None
+            taken = obs.__dict__.setdefault('_c14_sampled', [])
+            if category and category not in taken:
+                taken.append(category)
+                obs.sample({'family': family, 'linear index': n, 'shape': inf['label'] if inf else model.convention,
                             'winding': ('cw' if inf['cw'] else 'ccw') if inf else None, 'ring': ring,
-                            'concave': inf['concave'] if inf else None, 'collinear-vertices': inf['collinear'] if inf else None,
-                            'triangles (as vertex coordinates)': [[rows[v] for v in tri_rows[t]] for t in tris],
-                            'holes in dataset': sum(1 for p in mpolys if p is None)})
+                            'concave': inf['concave'] if inf else not is_convex(ring),
+                            'exactly collinear vertices': inf['collinear'] if inf else None,
+                            'triangles (positions in ring)': tri_pos,
+                            'cells without geometry in dataset': sum(1 for p in mpolys if p is None)})
 
 
 def check_cell(obs, n, ring, mp, tri_coords, tol, exact, family, inf, model):
@@ -245,14 +274,14 @@ def check_cell(obs, n, ring, mp, tri_coords, tol, exact, family, inf, model):
     suffix = ':' + family if family in ('rotated-faces',) else ''
     if not obs.expect(len(tri_coords) == nv - 2, 'a cell with n vertices gets exactly n-2 triangles',
                       lambda: ctx(got=len(tri_coords), want=nv - 2), mech='triangle-count' + suffix):
-        return False
+        return False, None
     find = ring_position(ring, tol)
     tri_pos = []
     for tc in tri_coords:
         pos = [find(x, y) for x, y in tc]
         if not obs.expect(all(p is not None for p in pos), 'every triangle vertex is a vertex of the cell it names',
                           lambda: ctx(triangle=tc), mech='foreign-vertex' + suffix):
-            return False
+            return False, None
         tri_pos.append(pos)
     ering = ff.exact_ring(ring)
     cell_a2 = abs(ff.area2(ering))
@@ -293,4 +322,4 @@ def check_cell(obs, n, ring, mp, tri_coords, tol, exact, family, inf, model):
         same = abs(total - cell_a2) <= Fraction(1, 10 ** 9) * cell_a2
     good &= obs.expect(same, 'triangle areas sum to the area of the cell',
                        lambda: ctx(sum=float(total) / 2, cell_area=float(cell_a2) / 2), mech='area-sum' + suffix)
-    return good
+    return good, tri_pos
